@@ -85,6 +85,49 @@ func loadKeys() {
 	}
 }
 
+// otherKeys: keys of the same kind as k that are not k: one EC key on each other curve, the symmetric key shortened / extended by a byte.
+func otherKeys(k interface{}) (out []interface{}) {
+	other := func(c elliptic.Curve) (ks []*ecdsa.PrivateKey) {
+		seen := map[elliptic.Curve]bool{c: true}
+		for _, e := range ecKeys {
+			if !seen[e.Curve] {
+				seen[e.Curve] = true
+				ks = append(ks, e)
+			}
+		}
+		return
+	}
+	switch v := k.(type) {
+	case *ecdsa.PrivateKey:
+		for _, e := range other(v.Curve) {
+			out = append(out, e)
+		}
+	case *ecdsa.PublicKey:
+		for _, e := range other(v.Curve) {
+			out = append(out, &e.PublicKey)
+		}
+	case []byte:
+		// (HMAC pads a short key with zero bytes: dropping a zero byte or appending one gives an equivalent key, not a different one)
+		if len(v) > 1 && v[len(v)-1] != 0 {
+			out = append(out, append([]byte(nil), v[:len(v)-1]...))
+		}
+		out = append(out, append(append([]byte(nil), v...), 1))
+	}
+	return
+}
+
+func keyName(k interface{}) string {
+	switch v := k.(type) {
+	case *ecdsa.PrivateKey:
+		return "EC private key on " + v.Curve.Params().Name
+	case *ecdsa.PublicKey:
+		return "EC public key on " + v.Curve.Params().Name
+	case []byte:
+		return fmt.Sprintf("%d-byte symmetric key", len(v))
+	}
+	return fmt.Sprintf("%T", k)
+}
+
 func ecKeysFor(curve elliptic.Curve) (out []int) {
 	for i, k := range ecKeys {
 		if k.Curve == curve {
@@ -275,6 +318,17 @@ func runSign0(c SCase) (n cnt, err error) {
 		return n, fmt.Errorf("%s: Verify succeeds with a different key", c.Alg)
 	}
 	n.evals++
+	for i, k := range otherKeys(vk) {
+		perr := ev.Try(func() error { _, err = parsed.Verify(k); return nil })
+		if perr != nil {
+			return n, fmt.Errorf("%s: Verify with a different key of the same kind (%s) does not fail with an error: %v", c.Alg, keyName(k), perr)
+		}
+		if err == nil {
+			return n, fmt.Errorf("%s: Verify succeeds with a different key of the same kind (#%d %s)", c.Alg, i, keyName(k))
+		}
+		n.evals++
+	}
+	err = nil
 	fs, err := fields(ser, false)
 	if err != nil {
 		return n, err
@@ -539,6 +593,19 @@ func runEncrypt0(c ECase) (n cnt, err error) {
 		return n, fmt.Errorf("%s: Decrypt succeeds with a different key (%d bytes)", what, len(out))
 	}
 	n.evals++
+	// other keys of the same kind: EC keys on the other curves, symmetric keys one byte shorter / longer
+	for i, k := range otherKeys(dk) {
+		var out []byte
+		perr := ev.Try(func() error { out, err = parsed.Decrypt(k); return nil })
+		if perr != nil {
+			return n, fmt.Errorf("%s: Decrypt with a different key of the same kind (%s) does not fail with an error: %v", what, keyName(k), perr)
+		}
+		if err == nil {
+			return n, fmt.Errorf("%s: Decrypt succeeds with a different key of the same kind (#%d %s, %d bytes)", what, i, keyName(k), len(out))
+		}
+		n.evals++
+	}
+	err = nil
 	bs := 16
 	if c.Size%bs == 0 || c.Size%bs == 1 || c.Size%bs == bs-1 {
 		n.blockEdge = true
